@@ -62,7 +62,39 @@ class Plugin(BasePlugin):
             'or two clients were involved; distinct by canonical JSON.')
     assumptions = ['documents are reduced to their ids; listings are compared as sets']
 
+    def gen_focus_rename_target(self, rng):
+        """a handle of the TARGET name is used (a read is enough) before another collection is
+        renamed onto that name; then reads and writes through the old handle, through the other
+        client on the same store, listings and index information; also the round trip a->b->a"""
+        d = rng.choice(DBS)
+        src, dst = rng.sample(COLLS[:3], 2)
+        x, y = rng.choice([('A', 'B'), ('B', 'A'), ('A', 'A')])
+        ops = []
+        first = rng.choice(['read', 'insert', 'index_info', 'create_index'])
+        o = {'op': first, 'client': x, 'db': d, 'c': dst}
+        if first == 'insert':
+            o['id'] = 3
+        if first == 'create_index':
+            o['field'] = 'y'
+        ops.append(o)
+        ops.append({'op': 'insert', 'client': rng.choice([x, y]), 'db': d, 'c': src, 'id': 1})
+        if rng.random() < 0.5:
+            ops.append({'op': 'create_index', 'client': y, 'db': d, 'c': src, 'field': 'x'})
+        ops.append({'op': 'rename', 'client': rng.choice([x, y]), 'db': d, 'c': src, 'new': dst,
+                    'drop_target': first in ('insert', 'create_index') or rng.random() < 0.5})
+        tail = [{'op': 'read', 'client': x, 'db': d, 'c': dst}, {'op': 'index_info', 'client': x, 'db': d, 'c': dst},
+                {'op': 'insert', 'client': x, 'db': d, 'c': dst, 'id': 2}, {'op': 'read', 'client': y, 'db': d, 'c': dst},
+                {'op': 'list_collections', 'client': y, 'db': d, 'c': dst}, {'op': 'read', 'client': x, 'db': d, 'c': src}]
+        ops += tail[:rng.choice([2, 4, 6])]
+        if rng.random() < 0.4:
+            ops.append({'op': 'rename', 'client': x, 'db': d, 'c': dst, 'new': src, 'drop_target': rng.random() < 0.5})
+            ops.append({'op': 'read', 'client': rng.choice([x, y]), 'db': d, 'c': src})
+            ops.append({'op': 'read', 'client': x, 'db': d, 'c': dst})
+        return {'ops': ops}
+
     def gen_case(self, rng, i, tier):
+        if rng.random() < 0.1:
+            return self.gen_focus_rename_target(rng)
         ops = []
         for _ in range(rng.randint(1, 10)):
             k = rng.choice(['read', 'insert', 'insert', 'insert', 'delete_all', 'create_collection',
